@@ -18,6 +18,9 @@ VERIF = os.path.dirname(os.path.dirname(os.path.abspath(__file__)))
 REPO = os.environ.get("VERIF_REPO", "/repo")
 TOOLKIT = os.path.join(REPO, "src/target/trx_toolkit")
 PY = sys.executable
+# runs against a scratch copy (VERIF_REPO set) keep their evidence and replay
+# files away from the committed ones
+OUT = VERIF if REPO == "/repo" else os.path.join(VERIF, "build", "alt")
 
 EXIT_HELD = 0
 EXIT_VIOLATION = 1
@@ -246,14 +249,14 @@ class Ctx:
 		known = [v for v in self.violations if v["known"]]
 
 		for key, minimum in sorted(self.requirements.items()):
-			if self.counters.get(key, 0) < minimum:
+			if self.counters.get(key, 0) < minimum and not unknown:
 				self.inconclusive.append("monitor '%s' observed %d events, needs >= %d"
 					% (key, self.counters.get(key, 0), minimum))
 
 		# replay files for unknown violations (first of each mechanism/sub)
 		lines = []
 		done = set()
-		rdir = os.path.join(VERIF, "replays", self.prop)
+		rdir = os.path.join(OUT, "replays", self.prop)
 		for v in unknown:
 			key = (v["sub"], v["mechanism"], v["what"])
 			if key in done:
@@ -338,8 +341,8 @@ class Ctx:
 		problems = validate_evidence(ev)
 		if problems:
 			self.inconclusive.append("evidence would not validate: %s" % "; ".join(problems))
-		os.makedirs(os.path.join(VERIF, "evidence"), exist_ok = True)
-		path = os.path.join(VERIF, "evidence", "%s.json" % self.prop)
+		os.makedirs(os.path.join(OUT, "evidence"), exist_ok = True)
+		path = os.path.join(OUT, "evidence", "%s.json" % self.prop)
 		tmp = path + ".tmp.%d" % os.getpid()
 		with open(tmp, "w") as f:
 			json.dump(ev, f, indent = 1, sort_keys = False)
